@@ -4,6 +4,7 @@ package interp
 // and contract stubs for callees the interpreter cannot execute.
 
 import (
+	"strconv"
 	"go/token"
 	"encoding/json"
 	"fmt"
@@ -180,6 +181,9 @@ func init() {
 	}
 	intrinsics[v+"SchemaPattern"] = func(fr *frame, args []value) value {
 		return schemaPattern(args[0].(string))
+	}
+	intrinsics[v+"SchemaValue"] = func(fr *frame, args []value) value {
+		return schemaValue(args[0].(string), args[1].(string))
 	}
 	intrinsics[v+"PublishedExtension"] = func(fr *frame, args []value) value {
 		vals, pat, found := publishedExtension(args[0].(string))
@@ -423,8 +427,22 @@ func init() {
 		is := func(k int64) *smt.Term { return c.Eq(m, c.Int64(k)) }
 		dim := c.Ite(is(2), c.Ite(leap, c.Int64(29), c.Int64(28)),
 			c.Ite(c.Or(is(4), is(6), is(9), is(11)), c.Int64(30), c.Int64(31)))
-		ok := c.And(c.Le(c.Int64(1), m), c.Le(m, c.Int64(12)), c.Le(c.Int64(1), d), c.Le(d, dim), c.Ge(y, zero))
+		ok := c.And(c.Le(c.Int64(1), m), c.Le(m, c.Int64(12)), c.Le(c.Int64(1), d), c.Le(d, dim))
 		return i.mkval(ok, types.Bool)
+	}
+	// civil.Time.IsValid: the time.Date round trip holds exactly for in-range fields
+	intrinsics["(cloud.google.com/go/civil.Time).IsValid"] = func(fr *frame, args []value) value {
+		i := fr.i
+		st := args[0].(structure)
+		if !hasSymInside(st) {
+			return notHandled{}
+		}
+		c := i.run.ctx
+		in := func(v value, hi int64) *smt.Term {
+			t := i.term(v)
+			return c.And(c.Le(c.Int64(0), t), c.Le(t, c.Int64(hi)))
+		}
+		return i.mkval(c.And(in(st[0], 23), in(st[1], 59), in(st[2], 59), in(st[3], 999999999)), types.Bool)
 	}
 
 	// ---- JWS / parser contract stubs (symbolic runs only; native replays use the real thing)
@@ -1171,6 +1189,50 @@ func schemaPattern(rel string) string {
 		return "<bad json>"
 	}
 	return findPattern(doc)
+}
+
+func schemaValue(rel, key string) string {
+	data, err := os.ReadFile("/repo/data/schemas/" + rel)
+	if err != nil {
+		return ""
+	}
+	var doc interface{}
+	if json.Unmarshal(data, &doc) != nil {
+		return ""
+	}
+	var find func(v interface{}) (string, bool)
+	find = func(v interface{}) (string, bool) {
+		switch x := v.(type) {
+		case map[string]interface{}:
+			if p, ok := x[key]; ok {
+				switch pv := p.(type) {
+				case string:
+					return pv, true
+				case float64:
+					return strconv.FormatInt(int64(pv), 10), true
+				}
+			}
+			keys := make([]string, 0, len(x))
+			for k := range x {
+				keys = append(keys, k)
+			}
+			sort.Strings(keys)
+			for _, k := range keys {
+				if p, ok := find(x[k]); ok {
+					return p, true
+				}
+			}
+		case []interface{}:
+			for _, e := range x {
+				if p, ok := find(e); ok {
+					return p, true
+				}
+			}
+		}
+		return "", false
+	}
+	s, _ := find(doc)
+	return s
 }
 
 func findPattern(v interface{}) string {
